@@ -48,7 +48,7 @@ def main():
               "statements: in/not_inside (values, ranges, unordered/overlapping/adjacent, field bounds, rangelist attribute), part/bit select, unique, "
               "if/else-if/else chains, implies, nesting, Boolean composition depth <= 3, enum fields, sub-objects (rand/non-rand), fixed lists + foreach, "
               "rand-set merging statements, call kinds randomize / randomize_with / vsc.randomize",
-              "seeded random programs: %d (depth <= 2 expressions, <= 4 statements, <= 5 fields)" % (1500 if t == "thorough" else 150))
+              "seeded random programs: %d (depth <= 2 expressions, <= 4 statements, <= 5 fields)" % (12000 if t == "thorough" else 150))
     canaries(chk)
     specs = gen.c01_programs(t, seed())
     chk.extra["rule"] = "one evaluation = one randomize call decided by Q1/Q2/Q3/Q5; distinct = distinct (program, call position)"
